@@ -51,7 +51,7 @@ CLAIMED = {
  "C13": dict(
     text="The NSEC type-bitmap builder: for symbolic record types (any window, any bit) added in any order, contains(t) <=> t was added, the wire form is well-formed per RFC 4034 4.1.2 (strictly ascending windows, length 1..32, last octet non-zero) and is accepted by the library's own validator.",
     note="Quick: 1 type through the builder, and contains() on arbitrary well-formed two-window wire bitmaps; thorough: 2 types in the same or in distinct windows. 3 windows and the bit-by-bit iterator run out of memory (experimental tier, not registered). generate_nsecs / generate_nsec3s (RecordsIter, cut tracking, ring SHA-1) are outside the claim.",
-    technique=KANI + "; differential against an independent RFC 4034 4.1.2 bitmap reader",
+    technique=KANI + "; differential against an independent RFC 4034 4.1.2 bitmap reader; split_rtype additionally by MIR->SMT-LIB2 (z3 + cvc5)",
     ref="DESIGN.md §4 C13"),
  "C01": dict(
     text="The read-side kernels that CBMC can execute: ParsedName::skip (used by every section hop and record skip) accepts a name exactly when its uncompressed part is at most 255 octets and stops right behind it, for all four-label names up to the limit; the slice label iterator (Label::iter_slice) terminates on every 6-octet input from every start, stays fused after None, and never panics; the message view accepts exactly octet strings of at least 12 octets and every header/flag/count accessor returns the RFC 1035 bit field of the header octets.",
@@ -117,7 +117,7 @@ def main():
         "engines": [
             {"name": "kani-cbmc", "path": "/verif/harness", "serves_properties": sorted(CLAIMED),
              "kind_free_text": "out-of-tree Kani harness crate with a path dependency on /repo; driver /verif/check + /verif/vlib"},
-            {"name": "mir2smt", "path": "/verif/mir2smt", "serves_properties": ["C17", "C11"],
+            {"name": "mir2smt", "path": "/verif/mir2smt", "serves_properties": ["C17", "C11", "C13"],
              "kind_free_text": "nightly -Zunpretty=mir dump of /repo translated to QF_BV SMT-LIB2; z3 and cvc5 must agree"},
         ],
         "checks": checks,
